@@ -13,7 +13,8 @@ RULE = (
     "Hypothesis draws EKF definitions with 1..3 sensors of 1..4 readings (unequal per-reading noise; readings need not "
     "equal states; +-calibration), and per case 3 updates: a state, an SPD covariance (rescaled by a power of two so "
     "that ||H P H^T|| <= 100*min noise) and a reading that is not rejected (filtering disabled, or normalised innovation "
-    "targeted at 0.2x / 0.9x the threshold using the reference S). sensor_model's state/covariance are compared by name "
+    "targeted at 0.2x / 0.9x the threshold using the reference S); in 4 of 7 cases noises and prior are scaled together by "
+    "1e-14 / 1e-9 / 1e-4 / 1e5 (tolerances for S and P scale with it). sensor_model's state/covariance are compared by name "
     "with the textbook update in 60-digit mpmath (x+K y, P-K H P, S=H P H^T+Q, K=P H^T S^-1, Q=diag of the named noises); "
     "the recorded innovation and innovation covariance with y and S; plus: reading equal to the prediction leaves the "
     "state bitwise unchanged, posterior symmetric, prior - posterior PSD (1e-9 relative), inputs unchanged. "
@@ -46,12 +47,18 @@ def cases(draw):
             "tau": draw(st.sampled_from([0.2, 0.9])),
             "free_nis": draw(st.floats(0.01, 50.0, allow_nan=False)),
         })
-    return {"model": spec, "updates": ups}
+    # "all positive per-reading noise assignments": the whole problem (noises and prior) scaled by a power of ten,
+    # so that clamps / floors / absolute tolerances inside the filter show up
+    scale = draw(st.sampled_from([1.0, 1.0, 1.0, 1e-14, 1e-9, 1e-4, 1e5]))
+    return {"model": spec, "updates": ups, "scale": scale}
 
 
 def case(spec, ctx):
     ctxmod.import_formak()
     m = spec["model"]
+    scale = float(spec.get("scale", 1.0))
+    if scale != 1.0:
+        m = dict(m, sensor_noises={kk: {r: v * scale for r, v in rs.items()} for kk, rs in m["sensor_noises"].items()})
     st_ = sorted(m["state"])
     k = m["config"]["innov"]
     with ctx.watchdog(20):
@@ -63,7 +70,7 @@ def case(spec, ctx):
         key, p = up["key"], up["point"]
         rd = sorted(m["sensors"][key])
         msize = len(rd)
-        P = ekf.rescale_for_sensor(m, key, p, up["P"])
+        P = ekf.rescale_for_sensor(m, key, p, (np.array(up["P"]) * scale).tolist())
         nis_target = up["free_nis"] if k is None else float(up["tau"] * ekf.threshold(k, msize))
         z = ekf.targeted_reading(m, key, p, P, up["dir"], nis_target)
 
@@ -86,7 +93,7 @@ def case(spec, ctx):
             ref = oracle.ref_update(m, key, state_pt, Pm, z)
             if rec_S.shape != (msize, msize):
                 ctx.fail("shape:S", f"recorded innovation covariance has shape {rec_S.shape}, expected {(msize, msize)}", spec)
-            ok, w = oracle.mat_close(rec_S, ref["S"], ref["S_scale"])
+            ok, w = oracle.mat_close(rec_S, ref["S"], ref["S_scale"], floor=scale)
             if not ok:
                 ctx.fail("value:S", f"S[{rd[w[0]]!r},{rd[w[1]]!r}] got {w[2]!r} ref {w[3]!r}; noises {m['sensor_noises'][key]}", spec)
             if rec_y.shape != (msize, 1):
@@ -104,7 +111,7 @@ def case(spec, ctx):
                 ctx.fail("value:state", f"x+[{st_[w[0]]!r}] got {w[2]!r} ref {w[3]!r} (sensor {key!r}, m={msize})", spec)
             if Pp.shape != (len(st_), len(st_)):
                 ctx.fail("shape:covariance", f"{Pp.shape}", spec)
-            ok, w = oracle.mat_close(Pp, ref["P"], ref["P_scale"])
+            ok, w = oracle.mat_close(Pp, ref["P"], ref["P_scale"], floor=scale)
             if not ok:
                 ctx.fail("value:covariance", f"P+[{st_[w[0]]!r},{st_[w[1]]!r}] got {w[2]!r} ref {w[3]!r} (sensor {key!r}, m={msize})", spec)
 
@@ -128,6 +135,7 @@ def case(spec, ctx):
         ctx.event("filtering_disabled" if k is None else f"tau={up['tau']}")
 
     ctx.event(f"states={len(st_)}")
+    ctx.event(f"scale={scale:g}")
     ctx.event("has_calibration" if m["calib"] else "no_calibration")
     if nontrivial:
         ctx.nontrivial(m)
